@@ -75,3 +75,10 @@ Definition triggered (c : case) : bool :=
 Definition mismatches (cs : list case) : list N := indices_where (fun c => negb (agrees c)) cs.
 Definition spec_violations (cs : list case) : list N := indices_where (fun c => negb (holds c)) cs.
 Definition trigger_F8 (cs : list case) : list N := indices_where triggered cs.
+
+(* F30: two bindings of one type with the same name; F31: a validating and a mutating binding
+   (or two mutating ones) with the same name *)
+Definition trigger_F30 (cs : list case) : list N :=
+  indices_where (fun c => match c with CHook hc _ => T_same_type_name hc | _ => false end) cs.
+Definition trigger_F31 (cs : list case) : list N :=
+  indices_where (fun c => match c with CHook hc _ => T_admission_same_name hc | _ => false end) cs.
